@@ -1,4 +1,5 @@
 import Fzf.Model.Algo
+import Fzf.Lemmas.Score
 import Fzf.Generated.AlgoConsts
 /-
 C03 — scores follow the documented scoring model.
@@ -68,8 +69,53 @@ theorem C03_bonus_rules (sch : Scheme) (prev cls : Nat) (hp : prev < 7) (hc : cl
   rcases ‹cls = 0 ∨ _› with h' | h' | h' | h' | h' | h' | h' <;>
   subst h <;> subst h' <;> simp (config := {decide := true}) [bonusFor, cWhite, cNonWord, cDelim, cLower, cUpper, cLetter, cNumber]
 
+/-- **The scoring walk on an occurrence.** On a range `[s, s+m)` of a line in which every position
+    carries the corresponding term character, `calculateScore` — the routine behind exact,
+    prefix and suffix terms and FuzzyMatchV1 — returns the documented score of that occurrence
+    (`occScore`: 16 per character plus its bonus; the first character's bonus doubled; inside the
+    run at least the consecutive bonus and at least the run's first bonus; a larger boundary
+    bonus restarts the run). It is a function of the line and the range alone: two terms
+    occupying the same range score the same. -/
+theorem C03_calculateScore_on_occurrence (cfg : Cfg) (cs norm : Bool) (t p : Text) (s : Nat)
+    (hfit : s + p.size ≤ t.size)
+    (hocc : ∀ i, i < p.size → foldRune cfg cs norm (t.getD (s + i) 0) = p.getD i 0) :
+    calculateScore cfg cs norm t p s (s + p.size) false = .ok (occScore cfg t s p.size, Option.none) :=
+  calculateScore_occ cfg cs norm t p s hfit hocc
+
+/-- **Prefix terms (`^term`) are scored as the occurrence they report.** -/
+theorem C03_prefix_scored_as_occurrence (cfg : Cfg) (cs norm : Bool) (t p : Text) (hp : 0 < p.size) (r : Res)
+    (hr : prefixMatch cfg cs norm t p = .ok r) (hm : 0 ≤ r.start) :
+    r.score = occScore cfg t r.start.toNat p.size :=
+  prefixMatch_score cfg cs norm t p hp r hr hm
+
+/-- **Suffix terms (`term$`) are scored as the occurrence they report.** -/
+theorem C03_suffix_scored_as_occurrence (cfg : Cfg) (cs norm : Bool) (t p : Text) (hp : 0 < p.size) (r : Res)
+    (hr : suffixMatch cfg cs norm t p = .ok r) (hm : 0 ≤ r.start) :
+    r.score = occScore cfg t r.start.toNat p.size :=
+  suffixMatch_score cfg cs norm t p hp r hr hm
+
+/-- **Bounds of an occurrence score** in the three schemes: an occurrence of `m ≥ 1` characters
+    scores at least `16m + 4(m-1)` (every character after the first earns the consecutive bonus)
+    and at most `16m + 10(m+1)` (no bonus exceeds 10, the first counts twice). -/
+theorem C03_occurrence_score_bounds (cfg : Cfg) (t : Text) (s m : Nat) (hm : 0 < m)
+    (hs : cfg.sch = schemeDefault ∨ cfg.sch = schemePath ∨ cfg.sch = schemeHistory) :
+    (16 : Int) * m + 4 * (m - 1) ≤ occScore cfg t s m ∧ occScore cfg t s m ≤ (16 : Int) * m + 10 * (m + 1) := by
+  have h := runScore_bounds cfg t hs ((List.range m).map (s + ·)) 0
+    (if s > 0 then charClassOf cfg (t.getD (s - 1) 0) else cfg.sch.initClass) 0 (by omega)
+  have hne : (List.range m).map (s + ·) ≠ [] := by
+    intro he
+    have := congrArg List.length he
+    simp at this; omega
+  simp only [hne, ne_eq, not_false_eq_true, and_self, if_true, List.length_map, List.length_range] at h
+  unfold occScore
+  omega
+
 /- Non-vacuity / sanity. -/
 example : bonusFor schemeDefault cWhite cLower = 10 ∧ bonusFor schemePath cDelim cLower = 9 ∧
     bonusFor schemeHistory cLower cUpper = 7 ∧ bonusFor schemeDefault cLower cLower = 0 := by decide
+
+/-- `^ab` on "ab-c" in the default scheme: 'a' at the start of the line earns the whitespace
+    bonus 10 twice, 'b' the run's first bonus: 16 + 20 + 16 + 10 = 62. -/
+example : occScore { U := ⟨id, fun c => c == 32, fun _ => 3⟩, sch := schemeDefault, norm := id } #[97, 98, 45, 99] 0 2 = 62 := by decide
 
 end Fzf.Props.C03
